@@ -6,7 +6,7 @@ same terms.  By induction this covers every finite operation history; C13.histor
 operation list as one sequence on one object (aliasing cross-check).
 """
 from symx.runner import harness
-from harness.common import pybc, enum_units, with_preferred
+from harness.common import pybc, enum_units, with_preferred, SLOT_DIM
 
 FUNCS = ['py_ballisticcalc.unit.AbstractDimension.*', 'py_ballisticcalc.unit.Unit.__call__']
 DIMS = ['Distance', 'Weight', 'Pressure', 'Velocity', 'Energy', 'Angular', 'Temperature']
@@ -212,9 +212,17 @@ def _cfg_cross(tier):
     return [{'dim': d} for d in DIMS]
 
 
+def _slot_call(p, dim, v, own_unit, d2, uu):
+    """a quantity of dimension `dim` handed to a PreferredUnits slot of the foreign dimension d2 (as library constructors do) and read back there"""
+    slot = next(k for k, d in SLOT_DIM.items() if d == d2)
+    with with_preferred(**{slot: uu}):
+        r = getattr(p.PreferredUnits, slot)(_mk(p, dim, v, getattr(p.Unit, own_unit)))
+        return r >> uu
+
+
 @harness('C13.cross', 'C13', configs=_cfg_cross, functions=['py_ballisticcalc.unit.AbstractDimension._validate_unit_type'],
          must_reach=['check:foreign_read_raises'],
-         bounds='every (dimension class, foreign unit) pair: get_in, >>, constructor, and unit_value/str after << to a foreign unit')
+         bounds='every (dimension class, foreign unit) pair: get_in, >>, constructor, unit_value/str after << to a foreign unit, the foreign unit CALLED on the quantity (Unit.X(q), PreferredUnits.<slot>(q)) and read back')
 def c13_cross(ctx, dim):
     p = pybc()
     v = ctx.real('value')
@@ -234,7 +242,13 @@ def c13_cross(ctx, dim):
             mine.unit_value, mine >> getattr(p.Unit, own[0])
             for nm, f in (('get_in', lambda: q.get_in(uu)), ('rshift', lambda: q >> uu), ('ctor', lambda: cls(v, uu)),
                           ('unit_value_after_lshift', lambda: (q << uu).unit_value),
-                          ('str_after_lshift', lambda: str(q))):
+                          ('str_after_lshift', lambda: str(q)),
+                          # the unit itself CALLED on the quantity (what every constructor does through PreferredUnits.<slot>(x)):
+                          # whatever comes back, reading it in that foreign unit is a conversion error, never a number
+                          ('unit_call_read', lambda: uu(_mk(p, dim, v, getattr(p.Unit, own[0]))).unit_value),
+                          ('unit_call_rshift', lambda: uu(_mk(p, dim, v, getattr(p.Unit, own[-1]))) >> uu),
+                          ('unit_call_get_in', lambda: uu(_mk(p, dim, v, getattr(p.Unit, own[0]))).get_in(uu)),
+                          ('preferred_slot_call', lambda: _slot_call(p, dim, v, own[0], d2, uu))):
                 try:
                     r = f()
                     ok = False
